@@ -542,7 +542,7 @@ def run(ctx):
     ok = all(nm == "operator[]" for _, nm in muts) and bool(muts)
     X = Expander(P, rsf)
     for i, nm in muts:
-        ok = ok and X(rsf.nodes[i]["args"][0]) == "elem(this->stats_).first"
+        ok = ok and X(rsf.nodes[i]["args"][0]) in ("elem(this->stats_).first", "elem(this->stats_)->first", "(*elem(this->stats_)).first")
     zero = [i for i, n in enumerate(rsf.nodes) if n["k"] == "bin" and n["op"] == "=" and "stats_[" in rsf.text(n["l"])]
     ok = ok and all(rsf.text(rsf.nodes[z]["r"]) == "0" for z in zero) and bool(zero)
     if not muts and not zero:
